@@ -435,3 +435,61 @@ func derive5Programs() []Program {
 		Harness: map[string][]byte{"zz_verif_harness.go": []byte(derive5Harness)},
 		Desc:    "derive: []byte fields; generic instance with parameters used out of declaration order"}}
 }
+
+// sixth family: a plain @fp.Derive that reaches a nested type is declared BEFORE a recursive=true derive that
+// reaches the same nested type: the two must not influence each other (the recursive one still derives the
+// nested instance and copies it deeply).
+const derive6Types = `package d6
+
+import (
+	"github.com/csgura/fp"
+	"github.com/csgura/fp/clone"
+)
+
+//go:generate gombok
+
+type Inner struct {
+	Items []int
+}
+
+type Plain struct {
+	In Inner
+	K  int
+}
+
+type Deep struct {
+	In Inner
+	P  *Inner
+}
+
+// @fp.Derive
+var _ clone.Derives[fp.Clone[Plain]]
+
+// @fp.Derive(recursive=true)
+var _ clone.Derives[fp.Clone[Deep]]
+`
+
+const derive6Harness = `package d6
+
+import (
+	zz "scratchmod/zzverif"
+)
+
+func VH_c08_plain_before_recursive() {
+	x := Deep{In: Inner{Items: zz.SliceInt("in", 1, 1, 0)}}
+	if zz.Bool("p") {
+		x.P = &Inner{Items: zz.SliceInt("p", 1, 0, 0)}
+	}
+	c := CloneDeep().Clone(x)
+	zz.Assert(zz.DeepEq(x, c) && zz.Disjoint(x, c), "derived Clone[Deep] (recursive=true, declared after a plain derive reaching the same nested type) shares no mutable storage")
+	y := Plain{In: Inner{Items: zz.SliceInt("y", 1, 0, 0)}, K: zz.Int("k")}
+	d := ClonePlain().Clone(y)
+	zz.Assert(zz.DeepEq(y, d), "derived Clone[Plain] is an equal copy")
+}
+`
+
+func derive6Programs() []Program {
+	return []Program{{Pkg: "d6", Files: map[string][]byte{"types.go": []byte(derive6Types)},
+		Harness: map[string][]byte{"zz_verif_harness.go": []byte(derive6Harness)},
+		Desc:    "derive: plain derive declared before a recursive one reaching the same nested type"}}
+}
